@@ -6,8 +6,14 @@
  (ii)  every predicate that decides whether a character continues a hex escape accepts the whole
        CSS hex-digit set 0-9 a-f A-F (a partial set silently merges an escape with the next char);
  (iii) escape decoders accumulate with the radix they read digits in (`acc * K + to_digit(R)`: K == R).
+ (iv)  escape normalisers (the functions that turn a decoded escape back into the stored form):
+       their decision chains are evaluated for representative characters; a backslash is never
+       stored bare, control characters are stored as hexadecimal escapes, and in unquoted
+       text the characters that end a token are never stored bare; the Sass reader and the
+       plain-CSS reader agree on every representative (sibling cross-check).
 Whether decoded code points equal the source's is the runtime part of the property and is not claimed.
 """
+import unicodedata
 import re
 
 from lib import ast as A
@@ -136,8 +142,197 @@ def run(ctx, F):
                         else:
                             ctx.fail("F5-radix-consistent", key, f"{f['path']} reads digits with radix {radices} but accumulates with `* {k}`: the decoded code point is not the one the escape denotes")
     ctx.floor("digit-accumulation loops", n_r, 1)
+    escape_normalisers(ctx, tree)
     ctx.explanation = ("Emitted-literal analysis of every `\\\\{:x}` template (delimiter in the template or the carry-space idiom in the same function), completeness of every character class used as a hex-digit test "
                        "(pattern ranges / literal sets evaluated to character sets; std is_ascii_hexdigit is complete), radix agreement between to_digit(R) and the accumulation constant.")
+
+
+# ------------------------------------------------------------------ (iv) escape normalisers
+
+class Unknown(Exception):
+    pass
+
+
+CHAR_PRED = {
+    "is_control": lambda c: unicodedata.category(c) == "Cc",
+    "is_alphabetic": lambda c: c.isalpha(),
+    "is_alphanumeric": lambda c: c.isalpha() or unicodedata.category(c) in ("Nd", "Nl", "No"),
+    "is_numeric": lambda c: unicodedata.category(c) in ("Nd", "Nl", "No"),
+    "is_ascii_digit": lambda c: c in "0123456789",
+    "is_ascii_alphabetic": lambda c: c.isascii() and c.isalpha(),
+    "is_ascii_alphanumeric": lambda c: c.isascii() and c.isalnum(),
+    "is_ascii_hexdigit": lambda c: c in HEX,
+    "is_ascii_punctuation": lambda c: c.isascii() and unicodedata.category(c)[0] in "PS",
+    "is_ascii_whitespace": lambda c: c in " \t\n\x0c\r",
+    "is_whitespace": lambda c: c.isspace(),
+    "is_ascii": lambda c: c.isascii(),
+    "is_ascii_control": lambda c: ord(c) < 32 or ord(c) == 127,
+}
+
+
+def char_value(n, var, c):
+    """value of a char/integer expression over the variable, or raise Unknown"""
+    n = A.strip(n)
+    e = n.get("e")
+    if e == "path" and n["p"] == var:
+        return c
+    if e == "lit":
+        if n.get("t") == "char":
+            return n["v"]
+        if n.get("t") == "byte":
+            return chr(n["v"])
+        if n.get("t") == "int":
+            return int(str(n.get("src") or n["v"]).replace("_", ""), 0) if isinstance(n.get("src") or n["v"], str) else int(n["v"])
+    if e == "call" and n["f"].get("e") == "path" and n["f"]["p"] in ("u32::from", "u64::from") and len(n["args"]) == 1:
+        v = char_value(n["args"][0], var, c)
+        return ord(v) if isinstance(v, str) else v
+    if e == "cast" and n.get("ty") in ("u32", "u64", "usize", "i32", "u8"):
+        v = char_value(n["x"], var, c)
+        return ord(v) if isinstance(v, str) else v
+    raise Unknown(A.show(n)[:50])
+
+
+def eval_cond(n, var, c):
+    n = A.strip(n)
+    while n.get("e") == "block" and len(n["stmts"]) == 1 and n["stmts"][0].get("s") == "expr":
+        n = A.strip(n["stmts"][0]["x"])
+    e = n.get("e")
+    if e == "lit" and n.get("t") == "bool":
+        return bool(n["v"])
+    if e == "unary" and n["op"] == "!":
+        return not eval_cond(n["x"], var, c)
+    if e == "bin":
+        op = n["op"]
+        if op == "&&":
+            return eval_cond(n["l"], var, c) and eval_cond(n["r"], var, c)
+        if op == "||":
+            return eval_cond(n["l"], var, c) or eval_cond(n["r"], var, c)
+        if op in ("==", "!=", "<", "<=", ">", ">="):
+            l, r = char_value(n["l"], var, c), char_value(n["r"], var, c)
+            if isinstance(l, str) and isinstance(r, str):
+                l, r = ord(l), ord(r)
+            if isinstance(l, str) or isinstance(r, str):
+                raise Unknown(A.show(n)[:50])
+            return {"==": l == r, "!=": l != r, "<": l < r, "<=": l <= r, ">": l > r, ">=": l >= r}[op]
+    if e == "mcall" and not n["args"] and n["m"] in CHAR_PRED:
+        v = char_value(n["recv"], var, c)
+        if isinstance(v, str):
+            return CHAR_PRED[n["m"]](v)
+    if e == "match" and len(n["arms"]) == 2:
+        v = char_value(n["on"], var, c)
+        s = char_set_of_pattern(n["arms"][0]["pat"])
+        b0, b1 = A.strip(n["arms"][0]["body"]), A.strip(n["arms"][1]["body"])
+        if s is not None and isinstance(v, str) and b0.get("t") == "bool" and b1.get("t") == "bool":
+            return bool(b0["v"]) if v in s else bool(b1["v"])
+    raise Unknown(A.show(n)[:50])
+
+
+def classify_result(n, var):
+    """how the normaliser stores the character on this branch"""
+    n = A.strip(n)
+    while n.get("e") == "block" and len(n["stmts"]) == 1 and n["stmts"][0].get("s") == "expr":
+        n = A.strip(n["stmts"][0]["x"])
+    fm = [x for x in A.walk(n) if x.get("e") == "fmt"]
+    if fm:
+        t = fm[0]["template"] or ""
+        if re.search(r"\\\{\w*:x\}", t):
+            return "hex"
+        if re.fullmatch(r"\\\{\d+\}", t):
+            return "escaped"
+        if re.fullmatch(r"\{\d+\}", t):
+            return "raw"
+        return "other:" + t
+    txt = A.show(n)
+    if "REPLACEMENT_CHARACTER" in txt:
+        return "replacement"
+    if re.fullmatch(rf"{var}\.to_string\(\)|String::from\({var}\)|{var}\.into\(\)", txt):
+        return "raw"
+    return "other:" + txt[:40]
+
+
+def normaliser_table(f):
+    """-> (var, function char -> class) for `let (rest, c) = escaped_char(input)?; let r = if .. {..} ..`"""
+    var = None
+    chain = None
+    for s_ in f["body"]["stmts"]:
+        if s_.get("s") == "let" and s_["pat"].get("p") == "tuple" and s_.get("init") is not None and "escaped_char(" in A.show(s_["init"]):
+            names = [x.get("n") for x in s_["pat"]["xs"] if x.get("p") == "bind"]
+            if len(names) == 2:
+                var = names[1]
+        elif var and s_.get("s") == "let" and s_.get("init") is not None and A.strip(s_["init"]).get("e") in ("if", "match"):
+            chain = A.strip(s_["init"])
+    if var is None or chain is None:
+        return None
+
+    def ev(n, c):
+        n = A.strip(n)
+        while n.get("e") == "block" and len(n["stmts"]) == 1 and n["stmts"][0].get("s") == "expr":
+            n = A.strip(n["stmts"][0]["x"])
+        if n.get("e") == "if" and n.get("else") is not None:
+            return ev(n["then"], c) if eval_cond(n["cond"], var, c) else ev(n["else"], c)
+        if n.get("e") == "match" and A.show(n["on"]).strip() == var:
+            for arm in n["arms"]:
+                s = char_set_of_pattern(arm["pat"])
+                hit = (arm["pat"].get("p") in ("wild", "bind")) or (s is not None and c in s)
+                if s is None and arm["pat"].get("p") not in ("wild", "bind"):
+                    raise Unknown(A.showpat(arm["pat"])[:40])
+                if hit and (arm.get("guard") is None or eval_cond(arm["guard"], var, c)):
+                    return ev(arm["body"], c)
+            raise Unknown("no arm")
+        return classify_result(n, var)
+    return var, lambda c: ev(chain, c)
+
+
+REPRESENTATIVES = ["\\", "\n", "\r", "\x0c", "\x01", "\x7f", " ", "\"", "'", "(", ")", "{", "}", "[", "]", ";", ",", "!", "a", "Z", "5", "-", "_", "é", "中"]
+TOKEN_ENDERS = set(" \"'(){}[];,!")
+
+
+def escape_normalisers(ctx, tree):
+    fns = [f for f in tree.fn_list if f["path"].startswith("parser::") and f["sig"]["name"].startswith("normalized_") and "escaped_char" in f["sig"]["name"]]
+    ctx.floor("escape normaliser functions", len(fns), 6)
+    tables = {}
+    for f in fns:
+        t = normaliser_table(f)
+        if t is None:
+            ctx.anchor_lost(f["path"], "not of the form `let (rest, c) = escaped_char(input)?; let result = <decision chain>`")
+            continue
+        var, fn = t
+        quoted = f["sig"]["name"].endswith("_q")
+        row = {}
+        for c in REPRESENTATIVES:
+            try:
+                row[c] = fn(c)
+            except Unknown as u:
+                ctx.anchor_lost(f"{f['path']}|{c!r}", f"cannot evaluate the decision chain for {c!r}: {u}")
+                row[c] = None
+        tables[f["path"]] = row
+        for c, cls in row.items():
+            if cls is None:
+                continue
+            key = f"{f['path']}|{c!r}"
+            if c == "\\" and cls not in ("escaped", "hex"):
+                ctx.fail("F5-escape-normaliser", key, f"{f['path']} stores a backslash written as an escape (e.g. the hex form 5c) as `{cls}`: in the stored form a bare backslash starts an escape, so the string no longer denotes a backslash")
+            elif unicodedata.category(c) == "Cc" and c != "\t" and cls != "hex":
+                ctx.fail("F5-escape-normaliser", key, f"{f['path']} stores the control character U+{ord(c):04X} as `{cls}`, not as a hexadecimal escape")
+            elif not quoted and c in TOKEN_ENDERS and cls == "raw":
+                ctx.fail("F5-escape-normaliser", key, f"{f['path']} stores the escaped character {c!r} bare in unquoted text: it ends the token when the output is read back")
+            else:
+                ctx.ok("F5-escape-normaliser", key, cls)
+    # sibling cross-check: the two readers agree
+    by_name = {}
+    for path, row in tables.items():
+        by_name.setdefault(path.rsplit("::", 1)[-1], []).append((path, row))
+    for name, rows in sorted(by_name.items()):
+        if len(rows) < 2:
+            continue
+        (p0, r0) = rows[0]
+        for p1, r1 in rows[1:]:
+            diff = [c for c in REPRESENTATIVES if r0.get(c) != r1.get(c)]
+            key = f"{name}|{p0.rsplit('::', 2)[0]} vs {p1.rsplit('::', 2)[0]}"
+            if diff:
+                ctx.fail("F9-escape-normaliser-siblings", key, f"the Sass reader and the plain-CSS reader disagree on how {name} stores {[repr(c) for c in diff][:5]}: {[(r0.get(c), r1.get(c)) for c in diff][:5]}")
+            else:
+                ctx.ok("F9-escape-normaliser-siblings", key, f"{len(REPRESENTATIVES)} representatives agree")
 
 
 def carry_space_idiom(f, tree):
